@@ -141,13 +141,16 @@ def run(ctx):
     for i, h in enumerate(chosen):
         k = kinds[i % len(kinds)] if (not quick or i % 5 == 0) else "P256"
         cfg = {"kind": k, "enc": rnd.choice(ENC_FOR[k]), "kex": rnd.choice(KEX_FOR[k]), "cipher": rnd.choice(CIPHERS), "rvinfo": rnd.random() < 0.5, "mods": rnd.choice([0, 1, 1, 2])}
+        cfg["altchain"] = (cfg["enc"] == 2 and i % 2 == 0)
         hs.append({"cfg": cfg, "actions": [to_action(x) for x in h]})
     for i, (aio, h) in enumerate(ext):
         k = kinds[i % len(kinds)] if (not quick or i % 5 == 0) else rnd.choice(["P256", "P384"])
         cfg = {"kind": k, "enc": rnd.choice(ENC_FOR[k]), "kex": rnd.choice(KEX_FOR[k]), "cipher": rnd.choice(CIPHERS), "rvinfo": rnd.random() < 0.5,
                "mods": rnd.choice([0, 1]), "aio": aio}
+        cfg["altchain"] = (cfg["enc"] == 2 and i % 2 == 1)
         hs.append({"cfg": cfg, "actions": [to_action(x) for x in h]})
     ctx.notes["extended_histories"] = len(ext)
+    ctx.notes["histories_with_reissued_owner_chain"] = sum(1 for h in hs if h["cfg"].get("altchain"))
     ctx.notes["extended_histories_all_in_one"] = sum(1 for a, _ in ext if a)
     wd = ctx.sub("lreplay")
     hp = os.path.join(wd, "histories.json")
